@@ -82,6 +82,9 @@ type gen struct {
 type pairRec struct {
 	Contract common.Address
 	Kind     string
+	// name and decimals of an externally deployed contract (a twin with the same data can replace it)
+	Name string
+	Dec  uint8
 }
 
 func (g *gen) logf(format string, a ...interface{}) { g.log = append(g.log, fmt.Sprintf(format, a...)) }
@@ -587,9 +590,39 @@ func (g *gen) registry() {
 	app := g.e.c.App
 	ak := app.AggregateKeeper
 	ctx := g.e.ctx
-	n := rapid.IntRange(0, 4).Draw(t, "registrySteps")
+	n := rapid.IntRange(0, 5).Draw(t, "registrySteps")
 	for i := 0; i < n; i++ {
-		switch rapid.SampledFrom([]string{"registerCoin", "registerERC20", "addCoin", "toggleRelay"}).Draw(t, "registryOp") {
+		deploy := func(name string, dec uint8) common.Address {
+			ctor, err := erc20contracts.ERC20MinterBurnerDecimalsContract.ABI.Pack("", name, strings.ToUpper(name), dec)
+			kit.Must(err, "pack ctor")
+			from := g.e.c.Accounts[1].Addr
+			nonce := app.EvmKeeper.GetNonce(ctx, from)
+			res, err := ak.CallEVMWithData(ctx, from, nil, append(append([]byte{}, erc20contracts.ERC20MinterBurnerDecimalsContract.Bin...), ctor...))
+			kit.Must(err, "deploy erc20")
+			if res.Failed() {
+				kit.Failf("deploy failed: %s", res.VmError)
+			}
+			return crypto.CreateAddress(from, nonce)
+		}
+		switch rapid.SampledFrom([]string{"registerCoin", "registerERC20", "addCoin", "toggleRelay", "updateERC20"}).Draw(t, "registryOp") {
+		case "updateERC20":
+			// governance replaced the contract of an externally owned pair by a twin (same name, symbol, decimals)
+			var ext []int
+			for i, p := range g.pairs {
+				if p.Kind == "erc20" && p.Dec > 0 { // with 0 decimals the display name is the base denomination and no contract can match it
+					ext = append(ext, i)
+				}
+			}
+			if len(ext) == 0 {
+				continue
+			}
+			i := ext[rapid.IntRange(0, len(ext)-1).Draw(t, "pair")]
+			twin := deploy(g.pairs[i].Name, g.pairs[i].Dec)
+			_, err := ak.UpdateTokenPairERC20(ctx, g.pairs[i].Contract, twin)
+			kit.Must(err, "UpdateTokenPairERC20")
+			g.logf("updateERC20 %s -> %s", g.pairs[i].Contract.Hex(), twin.Hex())
+			g.pairs[i].Contract = twin
+			g.cl.add("pair:contract_replaced")
 		case "registerCoin", "addCoin":
 			d, ok := g.freeDenom()
 			if !ok {
@@ -609,7 +642,7 @@ func (g *gen) registry() {
 			}
 			pair, err := ak.RegisterCoin(ctx, md)
 			kit.Must(err, "RegisterCoin")
-			g.pairs = append(g.pairs, pairRec{pair.GetERC20Contract(), "coin"})
+			g.pairs = append(g.pairs, pairRec{Contract: pair.GetERC20Contract(), Kind: "coin"})
 			g.cl.add("pair:coin")
 			if strings.ContainsAny(d, "/-") {
 				g.cl.add("pair:denom_with_separator")
@@ -619,19 +652,10 @@ func (g *gen) registry() {
 			g.nextTok++
 			name := fmt.Sprintf("tok%d", g.nextTok)
 			dec := rapid.SampledFrom([]uint8{0, 6, 18}).Draw(t, "decimals")
-			ctor, err := erc20contracts.ERC20MinterBurnerDecimalsContract.ABI.Pack("", name, strings.ToUpper(name), dec)
-			kit.Must(err, "pack ctor")
-			from := g.e.c.Accounts[1].Addr
-			nonce := app.EvmKeeper.GetNonce(ctx, from)
-			res, err := ak.CallEVMWithData(ctx, from, nil, append(append([]byte{}, erc20contracts.ERC20MinterBurnerDecimalsContract.Bin...), ctor...))
-			kit.Must(err, "deploy erc20")
-			if res.Failed() {
-				kit.Failf("deploy failed: %s", res.VmError)
-			}
-			addr := crypto.CreateAddress(from, nonce)
+			addr := deploy(name, dec)
 			pair, err := ak.RegisterERC20(ctx, addr)
 			kit.Must(err, "RegisterERC20")
-			g.pairs = append(g.pairs, pairRec{pair.GetERC20Contract(), "erc20"})
+			g.pairs = append(g.pairs, pairRec{Contract: pair.GetERC20Contract(), Kind: "erc20", Name: name, Dec: dec})
 			g.cl.add("pair:erc20")
 			g.logf("registerERC20 %s (%s)", addr.Hex(), pair.Denoms[0])
 		case "toggleRelay":
